@@ -6,6 +6,7 @@ the values it denotes (`decArrayX_enc`, `decAnnItemX_enc`).
 -/
 import AgVerif.Model.DexFileX
 import AgVerif.Proof.EncodedValue
+import AgVerif.Spec.DexFile
 namespace AgVerif.DexX
 open AgVerif.DexFile AgVerif.EncodedValue AgVerif.Gen.ValueTypes
 open AgVerif.Spec.EncodedValue (SValue Pools Elem)
@@ -151,14 +152,28 @@ def EncAnnItem (ab : Bytes) (vis t : Nat) (elems : List (Nat × SValue)) : Prop 
 
 theorem decAnnItemX_enc (P : Pools) (ab : Bytes) (vis t : Nat) (elems : List (Nat × SValue)) (rest : Bytes)
     (h : EncAnnItem ab vis t elems) :
-    ∃ it, decAnnItemX (okLook (toCM P)) (ab ++ rest) = .ok (it, ab.length) ∧
-      it.visibility = vis ∧ it.typeIdx = t ∧ it.elems = elems.map (fun e => (e.1, embed P e.2)) := by
+    decAnnItemX (okLook (toCM P)) (ab ++ rest) =
+      .ok (⟨vis, t, elems.map (fun e => (e.1, embed P e.2))⟩, ab.length) := by
   obtain ⟨body, rfl, henc⟩ := h
   have hv := decodeValue_encodes P _ _ henc rest ((body ++ rest).length + 2) (by simp only [List.length_cons, List.length_append]; omega)
   have hx := decValueX_lift (toCM P) ((body ++ rest).length + 2) ((0x1d :: body) ++ rest)
   rw [hv] at hx
   simp only [List.cons_append, decValueX, liftE, embed, embedElems_eq_map] at hx
-  refine ⟨⟨vis, t, elems.map (fun e => (e.1, embed P e.2))⟩, ?_, rfl, rfl, rfl⟩
   simp only [decAnnItemX, List.cons_append, hx, List.length_cons]
+
+/-! ### the offset records -/
+
+open AgVerif.Spec.DexFile (uint) in
+/-- annotation_set_item / annotation_set_ref_list: size, then the offsets -/
+def encOffList (l : List Nat) : Bytes := uint l.length ++ l.flatMap uint
+
+open AgVerif.Spec.DexFile (uint) in
+def encPairs (l : List (Nat × Nat)) : Bytes := l.flatMap fun p => uint p.1 ++ uint p.2
+
+open AgVerif.Spec.DexFile (uint) in
+/-- annotations_directory_item -/
+def encAnnDir (d : AnnDir) : Bytes :=
+  uint d.classOff ++ uint d.fields.length ++ uint d.methods.length ++ uint d.params.length ++
+    encPairs d.fields ++ encPairs d.methods ++ encPairs d.params
 
 end AgVerif.DexX
